@@ -15,7 +15,7 @@ import os
 import re
 from typing import Any, Dict, List, Optional, Set, Tuple
 
-from ..model import Program, AnalysisError, FuncInfo, walk_local, dotted
+from ..model import Program, AnalysisError, FuncInfo, walk_local, dotted, parents_of
 from ..report import RuleResult, guard
 from ..astutil import src, site, calls_in, call_name, is_self_attr, kwarg
 from ..cfg import CFG
@@ -540,8 +540,77 @@ def orm_order(prog: Program) -> RuleResult:
     return r
 
 
+def orm_fields_once(prog: Program) -> RuleResult:
+    """'One DAO per class, mirroring the inheritance chain, with a column for every public field': a field is mapped by the DAO of the class
+    that declares it and by no DAO below.  The table keeps the fields of its class whose names are not *inherited*; that set has to hold
+    the fields of every ancestor - either the class-level field lists (a dataclass lists inherited fields too) or the own fields of every
+    table up the chain.  The own fields of the direct parent table alone leave out what the parent itself inherited: the grandchild maps
+    the grandparent's columns, relationships and association tables a second time."""
+    r = RuleResult("ORM-FIELDS-ONCE", "the fields a table leaves to its ancestors are those of every ancestor", floor=1)
+    wt = prog.cls(WT)
+    f = wt.methods.get("fields")
+    if f is None:
+        raise AnalysisError("ORM-FIELDS-ONCE: WrappedTable.fields vanished")
+    # the filter: <own class fields> ... if <name> not in S
+    sets = []
+    for x in walk_local(f.node):
+        tests = x.ifs if isinstance(x, ast.comprehension) else [x.test] if isinstance(x, ast.If) else []
+        for t in tests:
+            for c in [y for y in ast.walk(t) if isinstance(y, ast.Compare) and len(y.ops) == 1 and isinstance(y.ops[0], (ast.NotIn, ast.In)) and isinstance(y.comparators[0], ast.Name)]:
+                if "name" in src(c.left):
+                    sets.append(c.comparators[0].id)
+    if not sets:
+        raise AnalysisError("ORM-FIELDS-ONCE: WrappedTable.fields no longer filters its class's fields by a set of names")
+    # the set the class's own field list is filtered by (further filters - fields removed by an alternative mapping - come after it)
+    own = [x for x in walk_local(f.node) if isinstance(x, ast.comprehension) and src(x.iter).endswith("self.wrapped_clazz.fields")]
+    own_sets = [c.comparators[0].id for x in own for t in x.ifs for c in ast.walk(t) if isinstance(c, ast.Compare) and isinstance(c.ops[0], ast.NotIn) and isinstance(c.comparators[0], ast.Name)]
+    if not own_sets:
+        raise AnalysisError("ORM-FIELDS-ONCE: the class's own field list is no longer filtered by a set of inherited names")
+    S = own_sets[0]
+    par = parents_of(f.node)
+    # walkers: locals that step up the chain of parent tables inside a while loop
+    walkers = set()
+    for w in [x for x in walk_local(f.node) if isinstance(x, ast.While)]:
+        for st in ast.walk(w):
+            if isinstance(st, ast.Assign) and len(st.targets) == 1 and isinstance(st.targets[0], ast.Name) and isinstance(st.value, ast.Attribute) and st.value.attr == "parent_table" \
+                    and isinstance(st.value.value, ast.Name) and st.value.value.id == st.targets[0].id:
+                walkers.add(st.targets[0].id)
+    sources = []
+    for x in walk_local(f.node):
+        gens = []
+        if isinstance(x, ast.Call) and isinstance(x.func, ast.Attribute) and x.func.attr in ("update", "add") and isinstance(x.func.value, ast.Name) and x.func.value.id == S:
+            gens = [g for a in x.args for g in ast.walk(a) if isinstance(g, ast.comprehension)]
+        if isinstance(x, (ast.Assign, ast.AugAssign, ast.AnnAssign)) and x.value is not None:
+            tg = x.targets[0] if isinstance(x, ast.Assign) else x.target
+            if isinstance(tg, ast.Name) and tg.id == S:
+                gens = [g for g in ast.walk(x.value) if isinstance(g, ast.comprehension)]
+        for g in gens:
+            it = g.iter
+            if isinstance(it, ast.Attribute) and it.attr == "fields":
+                owner = it.value
+                in_walk = False
+                cur = x
+                while cur in par:
+                    cur = par[cur]
+                    if isinstance(cur, ast.While):
+                        in_walk = True
+                root = owner
+                while isinstance(root, ast.Attribute):
+                    root = root.value
+                class_level = isinstance(owner, ast.Attribute) and owner.attr == "wrapped_clazz"
+                walks = in_walk and isinstance(root, ast.Name) and root.id in walkers
+                sources.append((it, class_level, walks))
+        # a loop that adds names one by one
+    ok = any(cl or wk for _, cl, wk in sources)
+    r.check(bool(sources) and ok, "WrappedTable.fields#every-ancestor", site(f, sources[0][0]) if sources else site(f), "; ".join(src(it) for it, _, _ in sources)[:120],
+            "the inherited names come from the class-level field lists of the ancestors or from the own fields of every table up the chain",
+            f"the inherited names are taken from {', '.join(src(it) for it, _, _ in sources) or 'nothing'} only - the own fields of the direct parent table, which leave out what that table "
+            f"inherits: a DAO two levels below the class that declares a field maps the field again (duplicate columns, a second relationship and association table)")
+    return r
+
+
 def run(prog: Program, tier: str) -> List[RuleResult]:
     # the generator reads every field through its resolved annotation: an unresolved forward reference is no class to map
     from .c17 import wf_resolved
 
-    return [guard(lambda: wf_table(prog)), guard(lambda: orm_dispatch(prog)), guard(lambda: orm_imports(prog)), guard(lambda: orm_names(prog)), guard(lambda: orm_determinism(prog)), guard(lambda: orm_memo(prog)), guard(lambda: wf_resolved(prog)), guard(lambda: orm_order(prog))]
+    return [guard(lambda: wf_table(prog)), guard(lambda: orm_dispatch(prog)), guard(lambda: orm_imports(prog)), guard(lambda: orm_names(prog)), guard(lambda: orm_determinism(prog)), guard(lambda: orm_memo(prog)), guard(lambda: wf_resolved(prog)), guard(lambda: orm_order(prog)), guard(lambda: orm_fields_once(prog))]
